@@ -17,6 +17,7 @@ from funsor.terms import Funsor, Number, Variable
 from . import seams
 
 MAX_POINTS = 256
+OVERFLOW = 1e150
 REAL_POINTS = {  # seeded sample points for real-valued free inputs
     0: 0.37,
     1: -1.21,
@@ -196,6 +197,12 @@ def compare_arrays(a, b, rtol=1e-6, atol=1e-7, names=()):
     else:
         af = a.astype(np.float64)
         bf = b.astype(np.float64)
+        # Overflow region: two evaluation orders of the same expression may land
+        # on inf and on 1.4e308 respectively; beyond OVERFLOW only the sign is
+        # compared (an arithmetic edge, never a scheduling or rewrite question).
+        with np.errstate(all="ignore"):
+            af = np.where(np.abs(af) > OVERFLOW, np.sign(af) * np.inf, af)
+            bf = np.where(np.abs(bf) > OVERFLOW, np.sign(bf) * np.inf, bf)
         nan_a, nan_b = np.isnan(af), np.isnan(bf)
         inf_a, inf_b = np.isinf(af), np.isinf(bf)
         fin = ~(nan_a | nan_b | inf_a | inf_b)
